@@ -475,6 +475,11 @@ class InterpAlgorithmFixed(object):
         ndarray
             Derivative of interpolated values with respect to grid.
         """
+        if getattr(self, 'vec_coeff', None) is not None:
+            # The caches were filled by a vectorized call; they are keyed differently.
+            self.coeffs = {}
+            self.vec_coeff = None
+            self.last_index = [0] * self.dim
         idx, _ = self.bracket(x)
         result, d_dx, d_values, d_grid = self.interpolate(x, idx)
 
